@@ -245,6 +245,7 @@ def run(ctx, fb, cfg):
         import fdrules
 
         fdrules.check_dstore_keys(ctx, lib, "C23.K3.domain-store-keys")
+        fdrules.check_registry(ctx, lib, "C23.K11.registry")
     R = "C23.K8.panic-inventory"
     edges, bodies = call_graph(lib)
     rs = roots(lib)
